@@ -12,6 +12,7 @@ THEOREMS = ["OQuPyVerif.Props.C04.trace_preserved", "OQuPyVerif.Props.C04.hermit
             "OQuPyVerif.Props.C04.kraus_step_physical", "OQuPyVerif.Props.C04.kraus_steps_physical",
             "OQuPyVerif.Props.C04.kraus_prefix_physical", "OQuPyVerif.Props.C04.gram_is_physical",
             "OQuPyVerif.Props.C04.ancilla_states_physical", "OQuPyVerif.Props.C04.runVec_append",
+            "OQuPyVerif.Props.C04.unitary_is_kraus_step",
             "OQuPyVerif.Props.C04.kraus_steps_posSemidef", "OQuPyVerif.Props.C04.ancilla_states_posSemidef",
             # PT-TEBD norm and reduced-state traces (C10) and the Gibbs state (C11)
             "OQuPyVerif.Props.C10.norm_step", "OQuPyVerif.Props.C10.norm_one",
